@@ -7,6 +7,6 @@ CONSTANTS
   DVals <- D2
   MaxIters = 12
   Degenerate = TRUE
-  StopOnExactRoot = FALSE
+  StopOnExactRoot = TRUE
 INVARIANT Emit
 CHECK_DEADLOCK FALSE
